@@ -2675,7 +2675,11 @@ impl<T: Storage> Raft<T> {
 
         // Now go ahead and actually restore.
 
-        if self.pending_request_snapshot == INVALID_INDEX
+        // A snapshot that answers a pending request is never older than the requested index, so
+        // an older one (a delayed or duplicated message) is treated like an unrequested snapshot:
+        // if it matches the local log it must not discard the entries behind it.
+        if (self.pending_request_snapshot == INVALID_INDEX
+            || meta.index < self.pending_request_snapshot)
             && self.raft_log.match_term(meta.index, meta.term)
         {
             info!(
